@@ -136,6 +136,15 @@ theorem C07_http (s : Site) (raised : Bool) :
   cases s <;> cases raised <;> simp [Spec.HttpFaithful, serveHttp, setHttpStatus, statusAt, okStatus, internalServerError,
     translatedStatus, unaryRaiseStatus, initRaiseStatus, producerRaiseStatus, exchangeRaiseStatus]
 
+/-- **C07 under response caps**: whatever caps are configured and however large the error payload (a 100 kB exception
+text, a long traceback), the unary HTTP body carries the error the implementation raised — it is never swapped for a
+cap error; only successful results are subject to the hard cap -/
+theorem C07_unary_body_faithful (overCap : Bool) : unaryBody true overCap = .implError := by
+  cases overCap <;> decide
+
+theorem unaryBody_success (overCap : Bool) : unaryBody false overCap = (if overCap then .capError else .result) := by
+  cases overCap <;> decide
+
 /-- `_set_http_status` itself: the marker is set exactly for status 500, which is rewritten to 200; every other
 status passes through unmarked -/
 theorem setHttpStatus_spec (code : Nat) :
